@@ -1,6 +1,8 @@
 (* C03 - Marshal agrees with encoding/json on errors and on the emitted JSON text. *)
 From Coq Require Import List NArith ZArith Bool Permutation Sorted.
-From SV.Enc Require Import Prims Ty Val IR Compile JsonLite MapSort VM StdEnc.
+Import ListNotations.
+From SV.Num Require Import Dec NumGrammar NumGrammarProofs.
+From SV.Enc Require Import Prims Ty Val IR Compile JsonLite MapSort VM StdEnc CompileWf.
 
 (* alg/sort.go: the 3-way radix quicksort (insertion sort base case, heapsort fallback) sorts every list of keys
    bytewise, for every depth budget, and only permutes it *)
@@ -16,3 +18,19 @@ Print Assumptions C03_sort_pairs_sorted_perm.
 
 Example C03_agree_upto_satisfiable : forall (A : Type) (kvs : list (@pair A)), agree_upto 0 kvs.
 Proof. intros A. exact (@agree_upto_0 A). Qed.
+
+(* alg.IsValidNumber (guards json.Number) accepts exactly the JSON number grammar (proved by property C19's builder) *)
+Theorem C03_is_valid_number_spec : forall s, is_valid_number s = true <-> json_number s.
+Proof. exact is_valid_number_spec. Qed.
+Print Assumptions C03_is_valid_number_spec.
+
+(* compiler.go: every branch operand of a compiled program is a position of the program (or its end), for every
+   environment of named types, compile options, type and pv *)
+Theorem C03_compile_labels_wf : forall e co vt pv prog, compile e co vt pv = COk prog ->
+  Forall (fun i => forall l, target i = Some l -> (l <= length prog)%nat) prog.
+Proof. exact compile_labels_wf. Qed.
+Print Assumptions C03_compile_labels_wf.
+
+Example C03_compile_labels_nonvacuous :
+  exists prog, compile [] default_copts (TSlice (TPrim KInt)) false = COk prog /\ length prog = 15%nat.
+Proof. eexists. split; [vm_compute; reflexivity | reflexivity]. Qed.
